@@ -21,15 +21,17 @@ Fixpoint sinsert (m : root) (k v : bytes) : root :=
   | [] => [(k, v)]
   | (k', v') :: t => if bytes_eqb k' k then (k, v) :: t else if blt k k' then (k, v) :: m else (k', v') :: sinsert t k v
   end.
-(* Trie.Update: first occurrence of a key wins, empty value deletes *)
-Fixpoint smt_update_i' (m : root) (ups : list (bytes * bytes)) (seen : list bytes) : root :=
+(* Trie.Update: first occurrence of a key wins, None (empty value) deletes *)
+Fixpoint tree_update_i' (m : root) (ups : list (bytes * option bytes)) (seen : list bytes) : root :=
   match ups with
   | [] => m
   | (k, v) :: t =>
-      if existsb (bytes_eqb k) seen then smt_update_i' m t seen
-      else smt_update_i' (match v with [] => remove m k | _ => sinsert m k v end) t (k :: seen)
+      if existsb (bytes_eqb k) seen then tree_update_i' m t seen
+      else tree_update_i' (match v with None => remove m k | Some x => sinsert m k x end) t (k :: seen)
   end.
-Definition smt_update_i (m : root) (ups : list (bytes * bytes)) : root := smt_update_i' m ups [].
+Definition tree_update_i (m : root) (ups : list (bytes * option bytes)) : root := tree_update_i' m ups [].
+Definition enc_i (b : bytes) : bytes := b.
+Definition tree_root_i (m : root) : root := m.
 Fixpoint kvs_eqb (a b : list (bytes * bytes)) : bool :=
   match a, b with
   | [], [] => true
@@ -96,6 +98,102 @@ Definition tx_spec (height : N) (r : N) (evs : list ev_obs) : bool :=
          end
   end.
 
+
+(* ---- declarative reference semantics (the right-hand side of failed_command_is_noop_on_state / events_on_failure):
+   the state is a plain key->value map — no cache entries, no dirty/deleted flags; a snapshot is a saved map; a failed
+   command gives the map back as it was when the command started; events of a failed command are dropped unless
+   unrevertible.  [None] = the oracle does not apply (a hook failed, the command does not exist, or the command itself
+   consumed ExecuteTransaction's snapshot: result Invalid, block rejected by the engine). *)
+Record psn := { ps_count : nat; ps_saved : list (nat * store) }.
+Definition psnap (v : psn) (m : store) : psn :=
+  {| ps_count := S (ps_count v); ps_saved := (ps_count v, m) :: nremove (ps_saved v) (ps_count v) |}.
+Definition plocal (ls : list (nat * psn)) (n : nat) : psn :=
+  match nlookup ls n with Some x => x | None => {| ps_count := 0; ps_saved := [] |} end.
+
+Fixpoint spec_run (m : store) (rs : psn) (ls : list (nat * psn)) (acts : list action)
+  : store * psn * list (option bytes) :=
+  match acts with
+  | [] => (m, rs, [])
+  | a :: t =>
+      match a with
+      | ASet k v => spec_run (put m k v) rs ls t
+      | ADel k => spec_run (remove m k) rs ls t
+      | AGet k => let '(m', rs', g) := spec_run m rs ls t in (m', rs', lookup m k :: g)
+      | AEvent _ _ => spec_run m rs ls t
+      | ASnap O => spec_run m (psnap rs m) ls t
+      | ASnap n => spec_run m rs ((n, psnap (plocal ls n) m) :: nremove ls n) t
+      | ARestore O id =>
+          match nlookup (ps_saved rs) id with
+          | Some m0 => spec_run m0 {| ps_count := ps_count rs; ps_saved := nremove (ps_saved rs) id |} ls t
+          | None => spec_run m rs ls t
+          end
+      | ARestore n id =>
+          let v := plocal ls n in
+          match nlookup (ps_saved v) id with
+          | Some m0 => spec_run m0 rs ((n, {| ps_count := ps_count v; ps_saved := nremove (ps_saved v) id |}) :: nremove ls n) t
+          | None => spec_run m rs ls t
+          end
+      end
+  end.
+
+(* events a script logs successfully: (unrevertible, name, data, extra topics) *)
+Fixpoint script_events (acts : list action) : list (bool * N * list N * list N) :=
+  match acts with
+  | [] => []
+  | AEvent u r :: t => if rq_ok r then (u, rq_name r, rq_data r, rq_topics r) :: script_events t else script_events t
+  | _ :: t => script_events t
+  end.
+
+Fixpoint number (evs : list (bool * N * list N * list N)) (i : N) (h : N) : list ev_obs :=
+  match evs with
+  | [] => []
+  | (_, n, d, tp) :: t => (n, d, 0 :: tp, i, h, true) :: number t (i + 1) h
+  end.
+
+(* one transaction: Some (map, root snapshots, values read, expected events, expected result code) *)
+Definition spec_tx (height : N) (m : store) (rs : psn) (t : tx)
+  : option (store * psn * list (option bytes) * list ev_obs * N) :=
+  if snd (tx_before t) then None else
+  match tx_command t with
+  | None => None
+  | Some c =>
+      if snd (tx_after t) then None else
+      let '(m1, rs1, g1) := spec_run m rs [] (fst (tx_before t)) in
+      let sid := ps_count rs1 in
+      let '(m2, rs2, g2) := spec_run m1 (psnap rs1 m1) [] (fst c) in
+      if snd c && match nlookup (ps_saved rs2) sid with Some _ => false | None => true end then None else
+      let m3 := if snd c then m1 else m2 in
+      let rs3 := {| ps_count := ps_count rs2; ps_saved := nremove (ps_saved rs2) sid |} in
+      let '(m4, rs4, g3) := spec_run m3 rs3 [] (fst (tx_after t)) in
+      let evs := script_events (fst (tx_before t)) ++
+                 (if snd c then filter (fun e => fst (fst (fst e))) (script_events (fst c)) else script_events (fst c)) ++
+                 script_events (fst (tx_after t)) ++
+                 [(false, 100, [8; if snd c then 0 else 1], [])] in
+      Some (m4, rs4, g1 ++ g2 ++ g3, number evs 0 height, if snd c then 1 else 2)
+  end.
+
+Fixpoint gots (os : list obs) : list (option bytes) :=
+  match os with [] => [] | OGot v :: t => v :: gots t | _ :: t => gots t end.
+Fixpoint opts_eqb (a b : list (option bytes)) : bool :=
+  match a, b with
+  | [], [] => true
+  | None :: a', None :: b' => opts_eqb a' b'
+  | Some x :: a', Some y :: b' => bytes_eqb x y && opts_eqb a' b'
+  | _, _ => false
+  end.
+
+(* the block against the reference semantics: Some (final map, all answers as the reference says) or None = not applicable *)
+Fixpoint spec_block (height : N) (m : store) (rs : psn) (txs : list tx_obs) (ok : bool) : option (store * bool) :=
+  match txs with
+  | [] => Some (m, ok)
+  | (t, r, evs, os) :: rest =>
+      match spec_tx height m rs t with
+      | None => None
+      | Some (m', rs', g, evs', r') =>
+          spec_block height m' rs' rest (ok && (r =? r') && evs_eqb evs' evs && opts_eqb g (gots os))
+      end
+  end.
+
 (* run the transactions of a block over one staged store; returns agreement flags and the final cache *)
 Fixpoint run_txs (s : store) (height : N) (c : cache) (v : vsnaps) (txs : list tx_obs) (am asp : bool) : cache * bool * bool :=
   match txs with
@@ -126,11 +224,11 @@ Inductive step :=
 Definition bogus : root := [([255], [255])].
 
 (* model state: application db, engine's roots per height, dumps recorded after each committed block, tip *)
-Record mstate := { m_db : appdb root; m_roots : list (N * root); m_states : list (N * store); m_tip : N }.
+Record mstate := { m_db : appdb root root; m_roots : list (N * root); m_states : list (N * store); m_tip : N }.
 Fixpoint nget {A : Type} (l : list (N * A)) (h : N) : option A :=
   match l with [] => None | (h', a) :: t => if h' =? h then Some a else nget t h end.
 
-Definition db_matches (a : appdb root) (d : dump) : bool :=
+Definition db_matches (a : appdb root root) (d : dump) : bool :=
   store_eqb (a_state a) (fst d) &&
   match a_tree_state a, snd d with
   | Some (h, r), Some h' => (h =? h') && root_eqb_i r (tree_image (fst d))
@@ -143,22 +241,28 @@ Definition check_step (m : mstate) (st : step) : N * mstate :=
   | SBlock height txs dry e r rootref treeref d =>
       let prev := match nget (m_roots m) (height - 1) with Some x => x | None => [] end in
       let '(c, am, asp) := run_txs (a_state (m_db m)) height [] no_snaps txs true true in
-      let right := match commit hash_i root_eqb_i smt_update_i (m_db m) c height prev None true with
+      let right := match commit hash_i enc_i root_eqb_i tree_update_i tree_root_i (m_db m) c height prev None true with
                    | COk _ x => x | _ => bogus end in
       let ex := match e with ENone => None | ERight => Some right | EWrong => Some bogus end in
-      let out := commit hash_i root_eqb_i smt_update_i (m_db m) c height prev ex dry in
+      let out := commit hash_i enc_i root_eqb_i tree_update_i tree_root_i (m_db m) c height prev ex dry in
       let '(a', mr, newroot) := match out with
                                 | COk a' x => (a', ROk', Some x)
                                 | CMismatch _ => (m_db m, RMismatch', None)
-                                | CPanic => (m_db m, ROther, None)
+                                | CPanic | CForeignRoot => (m_db m, ROther, None)
                                 end in
       let committed := res_eqb r ROk' && negb dry in
       let m' := if committed
                 then {| m_db := a'; m_roots := (height, right) :: m_roots m; m_states := (height, fst d) :: m_states m;
                         m_tip := height |}
                 else m in
+      let ref := spec_block height (a_state (m_db m)) {| ps_count := 0; ps_saved := [] |} txs true in
       (code (am && res_eqb mr r && db_matches a' d)
             (asp && (if committed then rootref && treeref else true) &&
+             (* reference semantics: answers of every transaction, and the committed state *)
+             match ref with
+             | Some (mref, okref) => okref && (if committed then store_eqb mref (fst d) && store_eqb (fst d) mref else true)
+             | None => true
+             end &&
              (* nothing is written unless the commit succeeded for real *)
              (if committed then true else match nget (m_states m) (m_tip m) with
                                           | Some s => store_eqb s (fst d) | None => Nat.eqb (length (fst d)) 0 end)), m')
@@ -166,10 +270,10 @@ Definition check_step (m : mstate) (st : step) : N * mstate :=
       let cur := match nget (m_roots m) height with Some x => x | None => [] end in
       let prev := match nget (m_roots m) (height - 1) with Some x => x | None => [] end in
       let ex := match e with ENone => None | ERight => Some prev | EWrong => Some bogus end in
-      let out := revert hash_i root_eqb_i smt_update_i (m_db m) height cur ex in
+      let out := revert hash_i enc_i root_eqb_i tree_update_i tree_root_i (m_db m) height cur ex in
       let '(a', mr) := match out with
                        | ROk a' _ => (a', ROk') | RNoDiff => (m_db m, RNoDiff') | RMismatch _ => (m_db m, RMismatch')
-                       | RPanic => (m_db m, ROther) end in
+                       | RPanic | RForeignRoot => (m_db m, ROther) end in
       let ok := res_eqb r ROk' in
       let m' := if ok then {| m_db := a'; m_roots := m_roots m; m_states := m_states m; m_tip := height - 1 |} else m in
       (code (res_eqb mr r && db_matches a' d)
@@ -180,7 +284,7 @@ Definition check_step (m : mstate) (st : step) : N * mstate :=
              else true), m')
   | SInit last wrong r rootref treeref d =>
       let lr := if wrong then bogus else match nget (m_roots m) last with Some x => x | None => [] end in
-      let out := init hash_i root_eqb_i smt_update_i [] (m_db m) last lr in
+      let out := init hash_i enc_i root_eqb_i tree_update_i tree_root_i [] (m_db m) last lr in
       let '(a', mr) := match out with
                        | IOk a' => (a', ROk') | IBehind => (m_db m, RBehind) | IConflict a' => (a', RConflict)
                        | IRevertErr a' RNoDiff => (a', RNoDiff') | IRevertErr a' _ => (a', ROther) | IFuel => (m_db m, ROther) end in
@@ -205,5 +309,5 @@ Fixpoint check_steps (m : mstate) (ss : list step) (i : N) (first_model : N) : N
   end.
 
 Definition check_scenario (ss : list step) : N :=
-  check_steps {| m_db := {| a_state := []; a_diffs := []; a_tree_state := None |}; m_roots := [(0, [])]; m_states := [(0, [])];
+  check_steps {| m_db := {| a_state := []; a_tree := []; a_diffs := []; a_tree_state := None |}; m_roots := [(0, [])]; m_states := [(0, [])];
                  m_tip := 0 |} ss 0 0.
